@@ -207,7 +207,9 @@ func c19(args []string) int {
 		{"ConsistencyLevel", 16, func(x uint64) bool { return primitive.ConsistencyLevel(x).IsValid() }, func(x uint64) string { return primitive.ConsistencyLevel(x).String() },
 			func(x uint64) error { return primitive.CheckValidConsistencyLevel(primitive.ConsistencyLevel(x)) }},
 		{"DataTypeCode", 16, func(x uint64) bool { return primitive.DataTypeCode(x).IsValid() }, func(x uint64) string { return primitive.DataTypeCode(x).String() },
-			func(x uint64) error { return primitive.CheckValidDataTypeCode(primitive.DataTypeCode(x), primitive.ProtocolVersion5) }},
+			func(x uint64) error {
+				return primitive.CheckValidDataTypeCode(primitive.DataTypeCode(x), primitive.ProtocolVersion5)
+			}},
 		{"BatchType", 8, func(x uint64) bool { return primitive.BatchType(x).IsValid() }, func(x uint64) string { return primitive.BatchType(x).String() },
 			func(x uint64) error { return primitive.CheckValidBatchType(primitive.BatchType(x)) }},
 		{"BatchChildType", 8, func(x uint64) bool { return primitive.BatchChildType(x).IsValid() }, func(x uint64) string { return primitive.BatchChildType(x).String() }, nil},
